@@ -428,6 +428,16 @@ def weave_all(repo_src, contracts_dir, spec_dir, out_dir, extra_blocks=None, ski
         info['normalisations'] += notes
         sc = os.path.join(contracts_dir, fname[:-3] + '.contract')
         blocks = parse_sidecar(sc) if os.path.exists(sc) else []
+        # $CONST_NANOS(NAME): the value of a `Duration` constant of this file, read mechanically from its initialiser in the CURRENT
+        # source (such constants are external to Verus; an axiom about them must say what the code says, not what it used to say)
+        for b in blocks:
+            for k, l in enumerate(b.lines):
+                for m in re.finditer(r'\$CONST_NANOS\((\w+)\)', l):
+                    cm = re.search(r'const\s+%s\s*:\s*Duration\s*=\s*Duration::from_(secs|millis|micros|nanos)\((\d[\d_]*)\)\s*;' % m.group(1), orig)
+                    if not cm:
+                        raise AnchorError('%s: constant %s is not a `Duration::from_<unit>(<literal>)` any more: its value cannot be read' % (fname, m.group(1)))
+                    nanos = int(cm.group(2).replace('_', '')) * {'secs': 10**9, 'millis': 10**6, 'micros': 10**3, 'nanos': 1}[cm.group(1)]
+                    b.lines[k] = b.lines[k].replace(m.group(0), str(nanos))
         if quarantine:
             # quarantine: the function can no longer carry ANY of its annotations (renamed locals, restructured loops).
             # Keep only its contract, mark it external_body (the contract is then ASSUMED for its callers), so that the
